@@ -188,11 +188,41 @@ def r14bc(ck, prog):
                              "the nucleotide letter set %r lacks one of T,U,t,u: spelling changes the detected kind" % text, prog.config)
 
 
+def r14e(ck, prog):
+    """the kind decision is blind to spelling: dna_total - protein_total is linear in the letter histogram, so it is the same
+    for every case pattern and every T/U substitution iff each letter's margin (nucleotide weight - protein weight) equals
+    the margin of its other-case twin, and the margins of T and U (t and u) are equal"""
+    W = c13.letter_weights(prog)[0]
+    F = prog.fn("detect_alphabet")
+    margin = lambda c: W["nucleotide"][ord(c)] - W["protein"][ord(c)]
+    import string
+    n = 0
+    for c in string.ascii_uppercase:
+        n += 1
+        if abs(margin(c) - margin(c.lower())) > 1e-12:
+            ck.violation("R14e", "R14e/detect_alphabet/case-%s" % c, site(prog, F, c),
+                         "'%s' and '%s' weigh differently in the kind decision (%.3f vs %.3f towards nucleotide): changing the case of "
+                         "residues can change the detected kind, and with it the gap pattern" % (c, c.lower(), margin(c), margin(c.lower())), prog.config)
+    for a, b in (("T", "U"), ("t", "u")):
+        n += 1
+        ck.inst("R14e", site(prog, F, a + "/" + b), "margin towards nucleotide: '%s' %.3f, '%s' %.3f" % (a, margin(a), b, margin(b)), prog.config)
+        if abs(margin(a) - margin(b)) > 1e-12:
+            ck.violation("R14e", "R14e/detect_alphabet/%s%s" % (a, b), site(prog, F, a + "/" + b),
+                         "'%s' and '%s' weigh differently in the kind decision (%.3f vs %.3f towards nucleotide; '%s' is a letter of the "
+                         "protein model, '%s' is not): the same nucleotide sequences are detected as protein when spelled with %s and as "
+                         "nucleotide when spelled with %s once enough ambiguity letters (R, Y, K, M, ...) are present" % (
+                             a, b, margin(a), margin(b), a, b, a, b), prog.config)
+    ck.inst("R14e", site(prog, F, "case"), "26 letters have the same margin in both cases", prog.config)
+    ck.floor("R14e", n, 28, "spelling twins")
+
+
 def run(ck, progs):
     describe(ck)
+    ck.rule("R14e", "each letter's margin in the kind decision (nucleotide weight - protein weight) equals that of its case twin, and T's equals U's: the decision is linear in the histogram, so this is exactly spelling-invariance")
     for cfg, prog in progs.items():
         ck.attempt(r14a, ck, prog)
         ck.attempt(r14bc, ck, prog)
+        ck.attempt(r14e, ck, prog)
         b0 = len(ck.instances)
         ck.attempt(c13.r13b, ck, prog)
         for i in ck.instances[b0:]:
